@@ -155,11 +155,12 @@ Definition scup_write_rev (rev : list Z) (scup : Z) : list Z :=
   end.
 Definition scup_write (block : list Z) (scup : Z) : list Z := rev (scup_write_rev (rev block) scup).
 
-(* parseStandardSegments: Panic when len(codeblock) < 2 (index out of range: the caller only
-   guarantees len > 0), Err on an invalid locator, else (MagSgn part, cleanup part) *)
+(* parseStandardSegments: Err when len(codeblock) < 2 (since /repo "fix: HTJ2K block decoder reads
+   the Scup locator of code-blocks shorter than two bytes"; before, index -1 panicked) or the
+   locator is invalid, else (MagSgn part, cleanup part) *)
 Definition scup_parse (block : list Z) : outcome (list Z * list Z) :=
   let lcup := zlen block in
-  if lcup <? 2 then Panic
+  if lcup <? 2 then Err
   else
     let scup := Z.lor (Z.shiftl (znth block (lcup - 1) 0) 4) (Z.land (znth block (lcup - 2) 0) 15) in
     if (scup <? 2) || (scup >? lcup) || (scup >? 4079) then Err
